@@ -26,6 +26,20 @@ let () =
         else Printf.printf "gt %d\n" (if ts_gt (a_s, a_n) (b_s, b_n) then 1 else 0)
      | "nsleep" -> let rs = zs (next ()) in let rn = zs (next ()) in let c = read_clock () in
                    pr_out (nanosleep (clk_of c) fuel (rs, rn)); print_newline ()
+     (* myth_nanosleep(req, rem): object 0 is the request, object 1 a separate rem object holding (ps, pn);
+        mode 0: rem = NULL, 1: rem = object 1, 2: rem = the request object.  After the call: *rem and *req *)
+     | "nsleepr" | "libsleepr" ->
+        let mode = nexti () in
+        let rs = zs (next ()) in let rn = zs (next ()) in let ps = zs (next ()) in let pn = zs (next ()) in
+        let c = read_clock () in
+        let m l = if Zio.int_of_nat l = 0 then (rs, rn) else (ps, pn) in
+        let prem = if mode = 0 then None else Some (Zio.nat_of_int (if mode = 1 then 1 else 0)) in
+        let (o, m') = nanosleep_mem (clk_of c) fuel m (Zio.nat_of_int 0) prem in
+        pr_out o;
+        (if op = "libsleepr" then pr_ev (snd (nanosleep_ev (clk_of c) fuel (m (Zio.nat_of_int 0)))));
+        (match prem with None -> Printf.printf " rem none" | Some l -> let (a, b) = m' l in Printf.printf " rem %s %s" (sz a) (sz b));
+        (let (a, b) = m' (Zio.nat_of_int 0) in Printf.printf " req %s %s" (sz a) (sz b));
+        print_newline ()
      | "usleep" -> let u = zs (next ()) in let c = read_clock () in pr_out (usleep (clk_of c) fuel u); print_newline ()
      | "sleep" -> let u = zs (next ()) in let c = read_clock () in pr_out (sleep (clk_of c) fuel u); print_newline ()
      | "tlock" | "tjoin" ->
